@@ -1,6 +1,7 @@
 SPEC_PART = dict(
     props_file="C11_freq",
-    legs=[dict(family="freq", focus="codec", oracles=["prop_roundtrip"], profiles=["debug", "release"], n_quick=40, n_thorough=600)],
+    legs=[dict(family="freq", focus="codec", oracles=["prop_roundtrip"], profiles=["debug", "release"], n_quick=40, n_thorough=600,
+               panic_is_violation=True)],
     trusted=["Frequent Items: the slot-level model of ReversePurgeItemHashMap (probing, back-shift deletion, iteration stride) is tied by "
              "the byte-for-byte / observation-for-observation correspondence run; the probe invariant is proved for insertions "
              "(what deserialize does), not for deletions during a purge",
